@@ -13,7 +13,9 @@ import (
 	"github.com/NethermindEth/juno/core/felt"
 	"github.com/NethermindEth/juno/db"
 	"github.com/NethermindEth/juno/db/memory"
+	"github.com/NethermindEth/juno/migration/historyprunner"
 	"github.com/NethermindEth/juno/pruner"
+	"github.com/NethermindEth/juno/utils/log"
 
 	"verif/harness/internal/gen"
 	"verif/harness/internal/node"
@@ -243,4 +245,76 @@ func TestKnownMinAgeSampleStaleAfterReorg(t *testing.T) {
 		t.Logf("%s: oldest retained block %d; replacement block 16 is %d s old (min-age 3600 s) (reproduced=%v)", kfMinAgeStaleAfterReorg, o, age, reproduced)
 	})
 	stats.KnownFindingWitness(t, kfMinAgeStaleAfterReorg, reproduced)
+}
+
+// migrationWitness stores the 14-block witness chain on a node WITHOUT pruning, records L1 head l1, then runs
+// the history-prune migration the way node.Run does on the first start with --prune-mode=retained. It returns
+// the migration error and whether the hash->number lookup of the HEAD block survived.
+func migrationWitness(newState bool, retained, l1 uint64, zeroWriteAt uint64) (err error, headLookup error) {
+	s := gen.MakeSierra(3)
+	u := &gen.Universe{Net: &networks.Sepolia, Sierra: []*gen.SierraInfo{s}}
+	ch := gen.NewChain(u, gen.Opts{})
+	addr, slot, fresh := gen.F(0xa1), gen.F(7), gen.F(0x99)
+	d := newFdb(memory.New())
+	n := node.New(newState, d, u.Net)
+	for i := uint64(0); i < 14; i++ {
+		df := core.EmptyStateDiff()
+		var classes map[felt.Felt]core.ClassDefinition
+		if i == 0 {
+			df.DeclaredV1Classes[s.Hash] = &s.CasmV1
+			df.DeployedContracts[addr] = &s.Hash
+			classes = map[felt.Felt]core.ClassDefinition{s.Hash: s.Def}
+		}
+		df.StorageDiffs[addr] = map[felt.Felt]*felt.Felt{slot: gen.FP(i + 1)}
+		if zeroWriteAt != 0 && i == zeroWriteAt {
+			df.StorageDiffs[addr][fresh] = gen.FP(0) // zero written to a never-written slot
+		}
+		b := witnessBlock(ch, "0.13.2", &df, classes)
+		if e := n.Store(b); e != nil {
+			stats.HarnessError("witness: store block %d: %v", i, e)
+		}
+	}
+	if e := n.BC.SetL1Head(&core.L1Head{BlockNumber: l1, BlockHash: gen.FP(1), StateRoot: gen.FP(2)}); e != nil {
+		stats.HarnessError("witness: SetL1Head: %v", e)
+	}
+	mig := historyprunner.New(retained, 0)
+	if e := mig.Before(nil); e != nil {
+		stats.HarnessError("witness: Before: %v", e)
+	}
+	_, err = mig.Migrate(context.Background(), d, u.Net, log.NewNopZapLogger())
+	_, headLookup = n.BC.BlockNumberByHash(ch.Blocks[13].B.Hash)
+	return err, headLookup
+}
+
+// The three migration witnesses share one shape: the migration returns an error (the node does not start),
+// and by then it has already wiped the hash-keyed lookup buckets, so even the head block cannot be found by hash.
+
+func TestKnownHistoryPruneMigrationFailsOnNewState(t *testing.T) {
+	if !stats.Known(kfMigNewState) {
+		t.Skipf("%s is not listed as known", kfMigNewState)
+	}
+	err, look := migrationWitness(true, 2, 12, 0)
+	reproduced := err != nil && errors.Is(look, db.ErrKeyNotFound)
+	t.Logf("%s: trie2 backend, retained 2, L1 head 12, head 13: Migrate: %v; BlockNumberByHash(head): %v (reproduced=%v)", kfMigNewState, err, look, reproduced)
+	stats.KnownFindingWitness(t, kfMigNewState, reproduced)
+}
+
+func TestKnownHistoryPruneMigrationFailsOnZeroWriteToAbsentSlot(t *testing.T) {
+	if !stats.Known(kfMigZeroAbsent) {
+		t.Skipf("%s is not listed as known", kfMigZeroAbsent)
+	}
+	err, look := migrationWitness(false, 2, 12, 11) // block 11 (kept: floor 10) writes 0 to a fresh slot
+	reproduced := err != nil && errors.Is(look, db.ErrKeyNotFound)
+	t.Logf("%s: legacy backend, retained 2, L1 head 12, block 11 writes zero to a never-written slot: Migrate: %v; BlockNumberByHash(head): %v (reproduced=%v)", kfMigZeroAbsent, err, look, reproduced)
+	stats.KnownFindingWitness(t, kfMigZeroAbsent, reproduced)
+}
+
+func TestKnownHistoryPruneMigrationFailsWhenFloorIsZero(t *testing.T) {
+	if !stats.Known(kfMigFloorZero) {
+		t.Skipf("%s is not listed as known", kfMigFloorZero)
+	}
+	err, look := migrationWitness(false, 12, 12, 0) // pivot 12 - retained 12 = floor 0
+	reproduced := err != nil && errors.Is(look, db.ErrKeyNotFound)
+	t.Logf("%s: legacy backend, retained 12, L1 head 12, head 13: Migrate: %v; BlockNumberByHash(head): %v (reproduced=%v)", kfMigFloorZero, err, look, reproduced)
+	stats.KnownFindingWitness(t, kfMigFloorZero, reproduced)
 }
